@@ -47,7 +47,7 @@ def gen(ctx, name, text, simulate=None, depth=None):
     c = "Gen_c19_%s.cfg" % name
     open(ctx.path("spec", c), "w").write(text)
     cf = ctx.path("cases_%s.ndjson" % name)
-    r = ctx.tlc("Gen_c19", c, env={"CASE_FILE": cf, "DICT_FILE": ctx.source_dict()}, workers=4, simulate=simulate, depth=depth, timeout=1500,
+    r = ctx.tlc("Gen_c19", c, env={"CASE_FILE": cf, "DICT_FILE": ctx.source_dict()}, workers=1 if name == "chain" else 4, simulate=simulate, depth=depth, timeout=1500,
                 expect_ok=False)
     if r.invariant_violated or not r.ok:
         raise vp.Broken("pass M failed (%s): the transcribed declarations violate the property beyond the named "
@@ -102,6 +102,8 @@ def run(ctx):
             ("sim", cfg("select", 8, 3, 3, ALLFORMS, targets="TargetsAll", subtargets="SubTargetsFew", wraps=ALLWRAPS),
              "num=250", 14),
         ]
+    # one measurement behind 0..40 levels of subqueries (every depth once), plain and under EXPLAIN
+    parts.append(("chain", cfg("select", 1, 40, 1, '{"db..m", "re"}', dbs='{"d3"}', wraps='{"none", "explain"}'), None, None))
     allcases = ctx.path("cases_all.ndjson")
     with open(allcases, "w", encoding="utf-8") as out:
         for name, text, sim, depth in parts:
@@ -134,8 +136,14 @@ def run(ctx):
     ctx.samples = [dict(text=x["obs"].get("text"), privs=x["obs"].get("privs")) for x in recs[3:3000:600]][:5]
     vs = ctx.judge("Judge_c19", "Judge_c19.cfg", of)
     bad = [v for v in vs if str(v.get("class", "")).startswith("machinery:")]
-    if bad:
+    real = [v for v in vs if not str(v.get("class", "")).startswith(("machinery:", "drift", "Dev_"))]
+    if bad and not real:
         raise vp.Broken("generated statements were not accepted as generated (%d), e.g. %s" % (len(bad), vp.short(bad[0])))
+    if bad:
+        # the tree under check rejects some generated statements AND breaks the property on accepted ones: the violations
+        # are about real behaviour and are reported; the rejected statements say nothing about C19
+        ctx.note("%d generated statements were not accepted as generated, e.g. %s" % (len(bad), vp.short(bad[0])))
+        ctx.verdicts = [v for v in ctx.verdicts if not str(v.get("class", "")).startswith("machinery:")]
     seen = sum(1 for v in vs if v.get("class") == "Dev_EmptyPrivilegesCardinalityNoFrom")
     ctx.note("named deviation Dev_EmptyPrivilegesCardinalityNoFrom: predicted by the design on %d statements, observed on "
              "the real code on %d" % (mdev, seen))
